@@ -27,7 +27,8 @@ Record cinfo := {
 (** where an entry of the constraint list handed to [_create] comes from *)
 Inductive origin :=
 | OOwn                           (* the constructor's own [constraints] argument *)
-| OBlock (i : nat)               (* [orig_constraints] of the i-th argument block, same object *)
+| OBlock (i : nat)               (* [orig_constraints] of the i-th argument block, same object: the block's
+                                    private copy of what it was given, carrying the block's geometry *)
 | OOuterCopy.                    (* [copy.copy] of an outer constraint after [sustain_within_block] *)
 
 (** the attributes a constructor reads from an argument block *)
@@ -231,3 +232,32 @@ Definition binfo_of_create (multicross : bool) (a : create_args) (ocs : list cin
      bi_design := ca_design a; bi_crossings := norm_crossings a; bi_sustains := ca_sustains a; bi_weights := ws;
      bi_orig_design := ca_design a; bi_orig_crossings := norm_crossings a; bi_orig_constraints := ocs;
      bi_alignment := ca_alignment a; bi_rcc := ca_rcc a; bi_trials := T; bi_common_preamble := P |}.
+
+(** What [_create] does with the constraints it is handed.  It works on private shallow copies
+    ([constraints = [copy.copy(ct) for ct in constraints]], /repo commit 88b3d0f): the objects handed
+    over are never changed, so a user's constraint object keeps [within_block = None] for ever.  At
+    its end [ct.init_within_block(self.get_geometry(0))] on every copy ([orig_constraints]): a
+    run-length or Pin constraint that carries no geometry yet gets the new block's geometry [g]; one
+    that carries the geometry of the block it comes from ([orig_constraints] of an argument block,
+    the outer copies of Nest) keeps it; the other classes have no [init_within_block]. *)
+Definition has_within_block (k : ckind) : bool :=
+  match k with
+  | KAtMost | KAtLeast | KExactlyK | KExactlyKInARow | KExactlyKMultiple | KPin => true
+  | KMinimumTrials | KExclude | KOther => false
+  end.
+
+Definition init_within_block (g : geometry) (c : cinfo) : cinfo :=
+  if has_within_block (c_kind c) then
+    match c_wb c with
+    | None => {| c_id := c_id c; c_kind := c_kind c; c_param := c_param c; c_wb := Some g |}
+    | Some _ => c
+    end
+  else c.
+
+(** [orig_constraints] of the block that [_create] builds from the arguments [a]; [g] = its [get_geometry(0)] *)
+Definition created_constraints (g : geometry) (a : create_args) : list cinfo :=
+  map (fun oc => init_within_block g (snd oc)) (ca_constraints a).
+
+(** [binfo_of_create] with the [orig_constraints] that [_create] arrives at *)
+Definition block_of_create (multicross : bool) (a : create_args) (g : geometry) (T P : nat) (ws : list Z) : binfo :=
+  binfo_of_create multicross a (created_constraints g a) T P ws.
